@@ -8,6 +8,9 @@ package m
 
 import (
 	"context"
+	"hash"
+
+	digest "github.com/opencontainers/go-digest"
 	"sync"
 	"time"
 )
@@ -214,3 +217,12 @@ func Now() time.Time { return time.Unix(1700000000, 0) }
 
 //gosym:replace os.Getpid
 func Getpid() int { return 4242 }
+
+// ---------------------------------------------------------------- digests
+
+// The SHA-256 function itself is not encoded: a digest is the byte sequence fed to the hash.
+//
+//gosym:replace github.com/opencontainers/go-digest.NewDigest
+func NewDigest(alg digest.Algorithm, h hash.Hash) digest.Digest {
+	return digest.Digest(string(alg) + ":" + string(h.Sum(nil)))
+}
